@@ -67,6 +67,11 @@ func (root *Root) ResolveExecutable(
 	// Returned error can be either an array of errors as a Errors, an Error,
 	// or just a plain fmt.Errorf() return.
 
+	// A root that has not loaded any SDL yet has no schema. Resolving must
+	// report the missing operation type, not crash on the nil schema.
+	root.init()
+	root.assureSchema()
+
 	op := exe.Ops[opName]
 	if op == nil {
 		// Only fall back to the sole operation when the caller did not ask
